@@ -21,8 +21,13 @@ import re
 
 import vlib
 
+# The deviations of the coded decoders that the design layer of Rlp.tla models (and that are listed as known findings).
+# When one is repaired in /repo, remove its name here and in spec/Rlp_Mon.cfg / spec/Rlp_Trace.cfg.
+DEVIATIONS = '{"optfix", "expelled", "sortedset", "dsmap"}'
+
 CFG = """SPECIFICATION Spec
 CONSTANTS
+  Deviations = %(dev)s
   Scope = "%(scope)s"
   Large = %(large)s
   NV = %(nv)d
@@ -64,6 +69,41 @@ def check_mirror(ctx):
     ctx.cov["you_packet_mirror"] = "%d structs identical to you/protocol.go" % len(MIRRORED)
 
 
+# ---------------------------------------------------------------------------------------------- large generic inputs
+def _hdr(n, off):
+    if n < 56:
+        return [off + n]
+    be = []
+    while n:
+        be.insert(0, n & 255)
+        n >>= 8
+    return [off + 55 + len(be)] + be
+
+
+def specials():
+    """Inputs outside the small scope of the spec-generated cases: deep nesting, long lists, 2- and 3-byte size fields,
+    size fields that lie.  (Plain construction of byte strings; the verdict on each is the monitor's.)"""
+    out = []
+    x = [0x80]
+    for _ in range(200):
+        x = _hdr(len(x), 0xc0) + x
+    out.append(x)                                              # 200 levels of nesting
+    out.append(x[:-1])                                         # ... truncated
+    out.append(_hdr(2000, 0xc0) + [0x80] * 2000)               # a list of 2000 empty strings
+    out.append(_hdr(2000, 0xc0) + [0xc0] * 2000)               # a list of 2000 empty lists
+    out.append(_hdr(70000, 0x80) + [0x41] * 70000)             # a string with a 3-byte size field
+    out.append(_hdr(70001, 0x80) + [0x41] * 70000)             # ... one byte short
+    out.append([0xb9, 0x00, 0x38] + [0x41] * 56)               # leading zero in a 2-byte size field
+    out.append([0xba, 0x00, 0x01, 0x00] + [0x41] * 256)        # leading zero in a 3-byte size field
+    item = _hdr(56, 0x80) + [0xff] * 56
+    out.append(_hdr(300 * len(item), 0xc0) + item * 300)       # a list of 300 long strings (3-byte size field of a list)
+    out.append(_hdr(300 * len(item) + 1, 0xc0) + item * 300)   # ... whose size field is one too large
+    out.append([0xf8, 0x38] + [0xbb, 0xff, 0xff, 0xff, 0xff] + [0x00] * 51)  # a 4 GiB string announced inside a list
+    out.append([0xbf] + [0xff] * 8)                            # an 16 EiB string announced at top level
+    out.append([0xff] + [0x7f] + [0xff] * 7)                   # an 8 EiB list announced at top level
+    return out
+
+
 # ---------------------------------------------------------------------------------------------- M + G
 def params(ctx):
     if ctx.quick:
@@ -90,9 +130,9 @@ def generate(ctx):
     nw = len(behs)
     seedfile = {"seeds.ndjson": DUMMY_SEED}
     # M/G: the specification against itself, small scopes
-    mi = ctx.tlc_must("Rlp", CFG % dict(scope="items", large="TRUE" if p["items_large"] else "FALSE", nv=1, nodecap=1, maxmut=0, invs=INV_ITEMS),
+    mi = ctx.tlc_must("Rlp", CFG % dict(dev=DEVIATIONS, scope="items", large="TRUE" if p["items_large"] else "FALSE", nv=1, nodecap=1, maxmut=0, invs=INV_ITEMS),
                       name="M_items", files=seedfile, timeout=3000, xss="512m")
-    mb = ctx.tlc_must("Rlp", CFG % dict(scope="bytes", large="TRUE", nv=1, nodecap=1, maxmut=0, invs=INV_BYTES),
+    mb = ctx.tlc_must("Rlp", CFG % dict(dev=DEVIATIONS, scope="bytes", large="TRUE", nv=1, nodecap=1, maxmut=0, invs=INV_BYTES),
                       name="M_bytes", files=seedfile, timeout=1500, xss="512m")
     for m in (mi, mb):
         if m.violated:
@@ -102,8 +142,9 @@ def generate(ctx):
     if p["items_sample"] and len(items) > p["items_sample"]:
         random.Random(ctx.seed).shuffle(items)
         items = items[:p["items_sample"]]
-    ctx.cov["generic_cases"] = {"byte_strings": len(generic), "items": len(items), "items_enumerated": mi.distinct}
-    generic += items
+    sp = specials()
+    ctx.cov["generic_cases"] = {"byte_strings": len(generic), "items": len(items), "items_enumerated": mi.distinct, "large_inputs": len(sp)}
+    generic = sp + generic + items
     # S: real objects -> seeds
     spath = ctx.path("seeds_raw.ndjson")
     ctx.drive("rlp", spath, opts={"mode": "seeds", "k": p["seeds_k"], "nodes": p["seed_nodes"]})
@@ -112,7 +153,7 @@ def generate(ctx):
         raise vlib.Undecided("the driver produced no seeds")
     seedtext = "".join(json.dumps({"ty": s["ty"], "k": s["k"], "b": s["b"], "nodes": s["nodes"]}, separators=(",", ":")) + "\n" for s in seeds)
     # M/G: schemas, samples, mutations (typed samples and real seeds)
-    mt = ctx.tlc_must("Rlp", CFG % dict(scope="all", large="FALSE", nv=p["nv"], nodecap=p["nodecap"], maxmut=1, invs=INV_TYPED),
+    mt = ctx.tlc_must("Rlp", CFG % dict(dev=DEVIATIONS, scope="all", large="FALSE", nv=p["nv"], nodecap=p["nodecap"], maxmut=1, invs=INV_TYPED),
                       name="MG_typed", files={"seeds.ndjson": seedtext}, timeout=3000, xss="512m", coverage=not ctx.quick)
     if mt.violated:
         raise vlib.Undecided("specification self-check failed (%s in %s)" % (mt.violated, mt.dir))
